@@ -576,11 +576,7 @@ func (w *World) Render(consts map[string]Sort, assumptions []Term, goal Term, ex
 	for _, e := range extra {
 		visit(e)
 	}
-	var ds []*Def
-	for d := range need {
-		ds = append(ds, d)
-	}
-	sort.Slice(ds, func(i, j int) bool { return ds[i].ord < ds[j].ord })
+	ds := w.topoOrder(need)
 	var sb strings.Builder
 	for _, d := range ds {
 		sb.WriteString("; --- " + d.Name + "\n")
@@ -609,4 +605,51 @@ func (w *World) Render(consts map[string]Sort, assumptions []Term, goal Term, ex
 	}
 	fmt.Fprintf(&sb, "(assert (not %s))\n", goal.S)
 	return sb.String()
+}
+
+// topoOrder orders definition groups by dependency, ties broken by name, so that the text of a query does not
+// depend on which other functions were translated before (deterministic queries => reproducible solver behaviour).
+func (w *World) topoOrder(need map[*Def]bool) []*Def {
+	deps := map[*Def]map[*Def]bool{}
+	for d := range need {
+		deps[d] = map[*Def]bool{}
+		smtTokens(d.Text, func(tok string) {
+			if o, ok := w.bySym[tok]; ok && o != d && need[o] {
+				deps[d][o] = true
+			}
+		})
+	}
+	var all []*Def
+	for d := range need {
+		all = append(all, d)
+	}
+	sort.Slice(all, func(i, j int) bool { return all[i].Name < all[j].Name })
+	var out []*Def
+	done := map[*Def]bool{}
+	var visit func(d *Def, stack map[*Def]bool)
+	visit = func(d *Def, stack map[*Def]bool) {
+		if done[d] || stack[d] {
+			return
+		}
+		stack[d] = true
+		var ds []*Def
+		for o := range deps[d] {
+			ds = append(ds, o)
+		}
+		sort.Slice(ds, func(i, j int) bool { return ds[i].Name < ds[j].Name })
+		for _, o := range ds {
+			visit(o, stack)
+		}
+		delete(stack, d)
+		done[d] = true
+		out = append(out, d)
+	}
+	// core first
+	for _, n := range w.always {
+		visit(w.defs[n], map[*Def]bool{})
+	}
+	for _, d := range all {
+		visit(d, map[*Def]bool{})
+	}
+	return out
 }
